@@ -6,7 +6,7 @@ for d in ${NEUTRAL_GLOB:-/verif/neutral/*}; do
   [ -f $d/patch.diff ] || continue
   id=$(basename $d)
   tmp=$(mktemp -d /tmp/nrc_XXXXXX)
-  cp -r /repo/cdd $tmp/cdd; cp /repo/setup.py /repo/requirements.txt $tmp/ 2>/dev/null
+  git -C /repo archive HEAD cdd setup.py requirements.txt | tar -x -C $tmp
   if ! (cd $tmp && git apply --unsafe-paths $d/patch.diff 2>/dev/null); then echo "$id does not apply (skipped)"; rm -rf $tmp; continue; fi
   res=""
   for P in ${CHECKS:-C01 C02 C03 C04 C05 C06 C07 C08 C09 C10 C11 C12 C13 C14 C15 C16 C17 C18 C19 C20}; do
